@@ -165,6 +165,7 @@ class Server(object):
         raise NotImplementedError
 
     def _authenticate_and_serve_client(self, sock):
+        sock2 = sock
         try:
             if self.authenticator:
                 addrinfo = sock.getpeername()
@@ -175,6 +176,9 @@ class Server(object):
                     return
                 else:
                     self.logger.info("%s authenticated successfully", addrinfo)
+                    # an authenticator may hand back another socket object (ssl detaches the accepted
+                    # one): that is the object close() has to shut down to terminate this client
+                    self.clients.add(sock2)
             else:
                 credentials = None
                 sock2 = sock
@@ -190,6 +194,7 @@ class Server(object):
                 pass
             closing(sock)
             self.clients.discard(sock)
+            self.clients.discard(sock2)
 
     def _serve_client(self, sock, credentials):
         addrinfo = sock.getpeername()
